@@ -31,9 +31,11 @@ def demo():
     rc, o = sh('%s/demo_bin' % out, out, timeout=600)
     return rc
 res['demo_exit_with_change'] = demo()
-sh('git stash -q', wt)
+# note: git stash is shared by all worktrees of a repository, so the change is reverted / re-applied with git apply
+sh('git diff > %s/_confirm.patch' % out, wt)
+sh('git apply -R %s/_confirm.patch' % out, wt)
 try:
     res['demo_exit_without_change'] = demo()
 finally:
-    sh('git stash pop -q', wt)
+    sh('git apply %s/_confirm.patch' % out, wt)
 print(json.dumps(res, indent=1))
